@@ -108,6 +108,16 @@ def run_shard(prop, seed, sh, tmpdir):
         if timed_out:
             sh.inconclusive.append(f"{eng}: watchdog fired in cases {lo}..{sh.hi} (last begun: {last_begin})")
             break
+        dl = re.search(r"CASE-DEADLINE-EXCEEDED idx=(\d+) seconds=(\d+)", stderr)
+        if dl:
+            # one case did not come back: no verdict for it (a wall-clock bound is never a violation), the rest of the shard is still explored
+            sh.inconclusive.append(f"{eng}: case {dl.group(1)} did not finish within {dl.group(2)} s (replay: --case {dl.group(1)})")
+            restarts += 1
+            if restarts > 3:
+                sh.inconclusive.append(f"{eng}: more than 3 cases without an end in one shard; cases {int(dl.group(1)) + 1}..{sh.hi} not explored")
+                break
+            lo = int(dl.group(1)) + 1
+            continue
         if rc == 0 and got_summary:
             break
         # abnormal end
